@@ -772,10 +772,83 @@ fn mutate(rng: &mut Rng, d: &[u8]) -> Vec<u8> {
 // profile 3: nc-session
 // =============================================================================================
 
+
+/// Mixed keep-alive / payload traffic of client 0 in both directions with sequence numbers exactly 256·j apart
+/// for different packet kinds, sparse first deliveries, then everything seen so far handed over again (twice, in
+/// random order). Returns the number of client-side datagrams generated.
+fn mixed_window(sc: &mut Sc, rng: &mut Rng, cls: &[Cl]) -> u64 {
+    let c = &cls[0];
+    let id = c.tok.spec.id;
+    // (datagram, towards the server?)
+    let mut all: Vec<(Vec<u8>, bool)> = vec![];
+    let mut generated = 0u64;
+    let rounds = rng.range(1, 2);
+    for _ in 0..rounds {
+        // ---- client -> server: keep-alive at k, payloads k+1 .. k+256
+        if let (_, Some(k)) = sc.opd(&format!("cli-upd {} 250000", c.h)) {
+            let d = sc.hist[k].bytes.clone();
+            generated += 1;
+            sc.op(&format!("srv-rx 0 {} {}", c.addr, hex(&d)));
+            all.push((d, true));
+        }
+        for j in 1..=256u32 {
+            let body = if j == 256 { rng.payload(5) } else { vec![(j % 251) as u8] };
+            if let (_, Some(k)) = sc.opd(&format!("cli-pay {} {}", c.h, hex(&body))) {
+                let d = sc.hist[k].bytes.clone();
+                generated += 1;
+                if j == 256 || rng.chance(1, 16) {
+                    sc.op(&format!("srv-rx 0 {} {}", c.addr, hex(&d)));
+                }
+                if j == 256 || j % 64 == 1 || rng.chance(1, 8) {
+                    all.push((d, true));
+                }
+            }
+        }
+        // ---- server -> client
+        sc.op("srv-upd 0 250000");
+        if let (_, Some(k)) = sc.opd(&format!("srv-updc 0 {}", id)) {
+            let d = sc.hist[k].bytes.clone();
+            sc.op(&format!("cli-rx {} {}", c.h, hex(&d)));
+            all.push((d, false));
+        }
+        for j in 1..=256u32 {
+            let body = if j == 256 { rng.payload(6) } else { vec![(j % 241) as u8] };
+            if let (_, Some(k)) = sc.opd(&format!("srv-pay 0 {} {}", id, hex(&body))) {
+                let d = sc.hist[k].bytes.clone();
+                if j == 256 || rng.chance(1, 16) {
+                    sc.op(&format!("cli-rx {} {}", c.h, hex(&d)));
+                }
+                if j == 256 || j % 64 == 1 || rng.chance(1, 8) {
+                    all.push((d, false));
+                }
+            }
+        }
+        // ---- everything seen so far, again, in random order (twice)
+        for _ in 0..2 {
+            let mut order: Vec<usize> = (0..all.len()).collect();
+            for i in (1..order.len()).rev() {
+                let j = rng.below(i as u64 + 1) as usize;
+                order.swap(i, j);
+            }
+            for i in order {
+                let (d, to_server) = &all[i];
+                if *to_server {
+                    sc.op(&format!("srv-rx 0 {} {}", c.addr, hex(d)));
+                } else {
+                    sc.op(&format!("cli-rx {} {}", c.h, hex(d)));
+                }
+            }
+        }
+    }
+    generated
+}
+
 fn script_session(rng: &mut Rng, tier: Tier, f: &mut dyn FnMut(&str) -> String) {
     let mut sc = Sc::new(f);
-    let bulk = rng.chance(1, 4);
-    let budget = if bulk { 420 } else if tier == Tier::Thorough { 90 } else { 70 };
+    let variant = rng.below(10);
+    let bulk = variant < 2;
+    let mixed = variant == 2 || variant == 3;
+    let mut budget = if bulk { 420 } else if tier == Tier::Thorough { 90 } else { 70 };
     let srv = setup_server(&mut sc, rng, 3);
     let now_s = srv.now_us / 1_000_000;
     let mut cls: Vec<Cl> = vec![];
@@ -829,6 +902,11 @@ fn script_session(rng: &mut Rng, tier: Tier, f: &mut dyn FnMut(&str) -> String) 
             hostile_srv(&mut sc, "hostile", &cls[c].addr.clone(), &last);
             seen.push((last, true, c));
         }
+    }
+    if mixed {
+        let n = mixed_window(&mut sc, rng, &cls);
+        sent[0] += n;
+        budget = sc.n + 30;
     }
     while sc.n < budget {
         let c = rng.below(2) as usize;
@@ -1004,6 +1082,22 @@ fn script_session(rng: &mut Rng, tier: Tier, f: &mut dyn FnMut(&str) -> String) 
                     }
                 }
             }
+        }
+    }
+    if rng.chance(1, 2) {
+        // the clients leave one after the other with their own Disconnect datagram; the table must follow
+        let order: [usize; 2] = if rng.chance(1, 2) { [0, 1] } else { [1, 0] };
+        for i in order {
+            if let (_, Some(k)) = sc.opd(&format!("cli-disc {}", cls[i].h)) {
+                let d = sc.hist[k].bytes.clone();
+                sc.op(&format!("srv-rx 0 {} {}", cls[i].addr, hex(&d)));
+            }
+            sc.op("srv-dump 0");
+            for j in 0..2 {
+                sc.op(&format!("srv-q 0 {}", cls[j].tok.spec.id));
+            }
+            let other = 1 - i;
+            sc.op(&format!("srv-pay 0 {} 77", cls[other].tok.spec.id));
         }
     }
     sc.op("srv-dump 0");
@@ -1693,11 +1787,14 @@ fn script_wire(rng: &mut Rng, tier: Tier, f: &mut dyn FnMut(&str) -> String) {
                 let holes = rng.chance(1, 3);
                 let addrs = gen_addr_list(rng, n, holes);
                 let id = rng.pick(&[0u64, 1, u64::MAX, 0x0102030405060708]);
-                let create = rng.pick(&[0u64, 100, 1_758_700_000]);
-                let expire = match rng.below(4) {
+                let create = rng.pick(&[0u64, 0, 1, 100, 1_758_700_000, u64::MAX]);
+                let expire = match rng.below(7) {
                     0 => create.saturating_sub(1), // expire < create
                     1 => create,
-                    _ => create + 30,
+                    2 => u64::MAX,
+                    3 => u64::MAX - 1,
+                    4 => 0,
+                    _ => create.saturating_add(30),
                 };
                 let timeout = rng.pick(&[-1i32, 0, 1, 15, i32::MAX, i32::MIN]);
                 let xnonce = k24(rng);
@@ -1765,10 +1862,18 @@ fn script_wire(rng: &mut Rng, tier: Tier, f: &mut dyn FnMut(&str) -> String) {
                         let t = t.to_string();
                         sc.op(&format!("tok-read {}", t));
                         // a client built from it must survive any update
-                        let now = rng.pick(&[0u64, 1_000_000, 1_758_700_000_000_000]);
+                        let now = rng.pick(&[0u64, 999_999, 1_000_000, 7_000_000, 1_758_700_000_000_000]);
                         sc.op(&format!("cli-new 9 {} {}", now, t));
                         sc.op(&format!("cli-upd 9 {}", rng.pick(&[0u64, 250_000, 1_000_000, 40_000_000])));
-                        sc.op(&format!("cli-upd 9 {}", rng.pick(&[0u64, 250_000, 1_000_000, 40_000_000])));
+                        sc.op(&format!("cli-upd 9 {}", rng.pick(&[0u64, 250_000, 1_000_000, 40_000_000, 1 << 50])));
+                        if rng.chance(1, 2) {
+                            sc.op(&format!("cli-rx 9 {}", hex(&junk(rng))));
+                            sc.op(&format!("cli-pay 9 {}", hex(&rng.bytes(3))));
+                            if rng.chance(1, 2) {
+                                sc.op("cli-disc 9");
+                            }
+                            sc.op(&format!("cli-upd 9 {}", rng.pick(&[0u64, 250_000, 3_000_000])));
+                        }
                         sc.op("cli-dump 9");
                         // truncations of the serialised token
                         let b = unhex(&t).unwrap_or_default();
@@ -1846,7 +1951,7 @@ fn script_wire(rng: &mut Rng, tier: Tier, f: &mut dyn FnMut(&str) -> String) {
 // profile 0: nc-regress — one fixed op list per repaired defect (deterministic, run on every check)
 // =============================================================================================
 
-const REGRESS_CASES: usize = 13;
+const REGRESS_CASES: usize = 16;
 
 fn regress_script(case: usize, f: &mut dyn FnMut(&str) -> String) {
     let mut rng = Rng::new(0xD1CE + case as u64);
@@ -1856,7 +1961,11 @@ fn regress_script(case: usize, f: &mut dyn FnMut(&str) -> String) {
     let ckey = k32(rng);
     let proto = 7u64;
     let hosts = SRV_A.to_string();
-    let max = if case == 7 { 1 } else { 2 };
+    let max = match case {
+        7 => 1,
+        13 => 3,
+        _ => 2,
+    };
     sc.op(&format!("srv-new 0 5000000 {} {} 1 {} {} {}", max, proto, hex(&key), hex(&ckey), hosts));
     let addr = [a4(10, 9, 0, 1, 4901), a4(10, 9, 0, 2, 4902)];
     let mut cls: Vec<Cl> = vec![];
@@ -2103,14 +2212,118 @@ fn regress_script(case: usize, f: &mut dyn FnMut(&str) -> String) {
                 }
             }
         }
+        // three clients; the lowest slot is vacated, then a client in a higher slot sends its Disconnect datagram:
+        // exactly that client's slot is freed
+        13 => {
+            let mut spec = base_spec(rng, 47, proto, key, 5, &hosts);
+            spec.expire = 35;
+            spec.seal_expire = 35;
+            spec.timeout = 5;
+            let a2 = a4(10, 9, 0, 7, 4907);
+            let third = new_client(&mut sc, 2, &a2, &spec, 5_000_000);
+            fast_connect(&mut sc, &cls[0]);
+            fast_connect(&mut sc, &cls[1]);
+            if let Some(c2) = third {
+                fast_connect(&mut sc, &c2);
+                sc.op("srv-dump 0");
+                // the first leaves
+                if let (_, Some(k)) = sc.opd("cli-disc 0") {
+                    let d = sc.hist[k].bytes.clone();
+                    sc.op(&format!("srv-rx 0 {} {}", cls[0].addr, hex(&d)));
+                }
+                sc.op("srv-dump 0");
+                // the third leaves: the second must stay
+                if let (_, Some(k)) = sc.opd("cli-disc 2") {
+                    let d = sc.hist[k].bytes.clone();
+                    sc.op(&format!("srv-rx 0 {} {}", c2.addr, hex(&d)));
+                }
+                sc.op("srv-dump 0");
+                for id in [40u64, 41, 47] {
+                    sc.op(&format!("srv-q 0 {}", id));
+                }
+                if let (_, Some(k)) = sc.opd("srv-pay 0 41 6869") {
+                    let d = sc.hist[k].bytes.clone();
+                    sc.op("note expect-payload");
+                    sc.op(&format!("cli-rx 1 {}", hex(&d)));
+                }
+                if let (_, Some(k)) = sc.opd("cli-pay 1 686f") {
+                    let d = sc.hist[k].bytes.clone();
+                    sc.op("note expect-payload");
+                    sc.op(&format!("srv-rx 0 {} {}", cls[1].addr, hex(&d)));
+                }
+                sc.op("srv-upd 0 250000");
+                sc.op("srv-updc 0 41");
+                sc.op("srv-updc 0 47");
+                sc.op("srv-dump 0");
+            }
+        }
+        // a keep-alive at sequence k, a payload at k + 256, the keep-alive again, the payload again: the payload is
+        // surfaced once (both directions)
+        14 => {
+            fast_connect(&mut sc, &cls[0]);
+            let c = &cls[0];
+            let id = c.tok.spec.id;
+            let mut ka_c: Vec<u8> = vec![];
+            if let (_, Some(k)) = sc.opd("cli-upd 0 250000") {
+                ka_c = sc.hist[k].bytes.clone();
+                sc.op(&format!("srv-rx 0 {} {}", c.addr, hex(&ka_c)));
+            }
+            let mut p_c: Vec<u8> = vec![];
+            for j in 1..=256u32 {
+                if let (_, Some(k)) = sc.opd(&format!("cli-pay 0 {:02x}", j % 256)) {
+                    p_c = sc.hist[k].bytes.clone();
+                }
+            }
+            sc.op("note expect-payload");
+            sc.op(&format!("srv-rx 0 {} {}", c.addr, hex(&p_c)));
+            hostile_srv(&mut sc, "hostile", &c.addr.clone(), &ka_c);
+            hostile_srv(&mut sc, "hostile", &c.addr.clone(), &p_c);
+            // server -> client
+            sc.op("srv-upd 0 250000");
+            let mut ka_s: Vec<u8> = vec![];
+            if let (_, Some(k)) = sc.opd(&format!("srv-updc 0 {}", id)) {
+                ka_s = sc.hist[k].bytes.clone();
+                sc.op(&format!("cli-rx 0 {}", hex(&ka_s)));
+            }
+            let mut p_s: Vec<u8> = vec![];
+            for j in 1..=256u32 {
+                if let (_, Some(k)) = sc.opd(&format!("srv-pay 0 {} {:02x}", id, j % 256)) {
+                    p_s = sc.hist[k].bytes.clone();
+                }
+            }
+            sc.op("note expect-payload");
+            sc.op(&format!("cli-rx 0 {}", hex(&p_s)));
+            hostile_cli(&mut sc, "hostile", 0, &ka_s);
+            hostile_cli(&mut sc, "hostile", 0, &p_s);
+        }
+        // a token with extreme time stamps in a client created at a non-zero time: updates never unwind
+        15 => {
+            for (h, (create, expire, now_us)) in [(0u64, u64::MAX, 1_000_000u64), (1, u64::MAX, 1_758_700_000_000_000), (5, u64::MAX - 1, 7_000_000), (u64::MAX, 0, 1_000_000)].iter().enumerate() {
+                let mut spec = base_spec(rng, 60 + h as u64, proto, key, 5, &hosts);
+                spec.create = *create;
+                spec.expire = *expire;
+                spec.seal_expire = *expire;
+                spec.timeout = [i32::MAX, -1, 0, i32::MIN][h];
+                if let Some(c) = new_client(&mut sc, 10 + h as u64, &a4(10, 9, 1, h as u8, 4950), &spec, *now_us) {
+                    for dt in [0u64, 250_000, 1_000_000, 40_000_000, 1 << 50] {
+                        sc.op(&format!("cli-upd {} {}", c.h, dt));
+                    }
+                    sc.op(&format!("cli-rx {} {}", c.h, hex(&vec![0x25u8; 40])));
+                    sc.op(&format!("cli-pay {} 00", c.h));
+                    sc.op(&format!("cli-disc {}", c.h));
+                    sc.op(&format!("cli-upd {} 250000", c.h));
+                    sc.op(&format!("cli-dump {}", c.h));
+                }
+            }
+        }
         // sequence 2^64-1 (the window's EMPTY sentinel) from the owner of a session
         _ => {
             fast_connect(&mut sc, &cls[0]);
-            let d = forge(5, u64::MAX, proto, &cls[0].tok.spec.c2s, &[1, 2, 3]);
+            let d = forge(4, u64::MAX, proto, &cls[0].tok.spec.c2s, &[0u8; 8]);
             sc.op(&format!("srv-rx 0 {} {}", cls[0].addr, hex(&d)));
             sc.op("srv-dump 0");
             sc.op(&format!("srv-rx 0 {} {}", cls[0].addr, hex(&d)));
-            let d = forge(5, u64::MAX - 256, proto, &cls[0].tok.spec.c2s, &[4]);
+            let d = forge(4, u64::MAX - 256, proto, &cls[0].tok.spec.c2s, &[0u8; 8]);
             sc.op(&format!("srv-rx 0 {} {}", cls[0].addr, hex(&d)));
             sc.op("srv-dump 0");
         }
@@ -2349,6 +2562,163 @@ fn script_failover(rng: &mut Rng, _tier: Tier, f: &mut dyn FnMut(&str) -> String
     }
 }
 
+
+// =============================================================================================
+// profile nc-table-full (C05, one fixed case): the connect-token table (2048 entries) is filled with distinct
+// valid tokens, so that the replacement of the OLDEST entry is what protects a token's address binding
+// =============================================================================================
+
+/// a connection request datagram assembled by hand from the public fields and the sealed private part
+fn request_datagram(proto: u64, expire: u64, xnonce: &[u8; 24], private: &[u8]) -> Vec<u8> {
+    let mut d = vec![0u8];
+    d.extend_from_slice(b"NETCODE 1.02\0");
+    d.extend_from_slice(&proto.to_le_bytes());
+    d.extend_from_slice(&expire.to_le_bytes());
+    d.extend_from_slice(xnonce);
+    d.extend_from_slice(private);
+    d
+}
+
+fn table_full_script(_case: usize, f: &mut dyn FnMut(&str) -> String) {
+    let mut rng = Rng::new(0x7AB1E);
+    let rng = &mut rng;
+    let mut sc = Sc::new(f);
+    let key = k32(rng);
+    let ckey = k32(rng);
+    let proto = 7u64;
+    sc.op(&format!("srv-new 0 5000000 4 {} 1 {} {} {}", proto, hex(&key), hex(&ckey), SRV_A));
+    sc.op("note setup-done");
+    let (c2s, s2c) = (k32(rng), k32(rng));
+    let filler_addr = a4(10, 8, 0, 1, 4800);
+    // one cheap token: same keys, no user data; client id and xnonce differ
+    let mut filler = |sc: &mut Sc, n: u64| {
+        let mut xnonce = [0u8; 24];
+        xnonce[..8].copy_from_slice(&n.to_le_bytes());
+        let out = sc.op(&format!("ptok-seal {} 605 {} {} {} 5 {} {} {} -", proto, hex(&xnonce), hex(&key), 100_000 + n, SRV_A, hex(&c2s), hex(&s2c)));
+        if let Some(p) = out.strip_prefix("ok ").and_then(unhex) {
+            sc.op(&format!("srv-rx 0 {} {}", filler_addr, hex(&request_datagram(proto, 605, &xnonce, &p))));
+        }
+        sc.op("srv-upd 0 1000");
+    };
+    for n in 0..2048u64 {
+        filler(&mut sc, n);
+    }
+    sc.op("srv-dump 0");
+    // the token T, first used from A
+    let a = a4(10, 8, 0, 2, 4802);
+    let b = a4(10, 8, 0, 3, 4803);
+    let mut spec = base_spec(rng, 4242, proto, key, 5, SRV_A);
+    spec.expire = 605;
+    spec.seal_expire = 605;
+    spec.timeout = 5;
+    let cl = match new_client(&mut sc, 0, &a, &spec, 7_048_000) {
+        Some(c) => c,
+        None => return,
+    };
+    let req = match sc.opd("cli-upd 0 0") {
+        (_, Some(k)) => sc.hist[k].bytes.clone(),
+        _ => return,
+    };
+    sc.op(&format!("srv-rx 0 {} {}", a, hex(&req)));
+    sc.op("srv-upd 0 1000");
+    // one more fresh token
+    filler(&mut sc, 5000);
+    // T replayed from B: it is bound to A
+    if let (_, Some(k)) = sc.opd(&format!("srv-rx 0 {} {}", b, hex(&req))) {
+        let chal = sc.hist[k].bytes.clone();
+        sc.op(&format!("cli-rx 0 {}", hex(&chal)));
+        if let (_, Some(k)) = sc.opd("cli-upd 0 0") {
+            let resp = sc.hist[k].bytes.clone();
+            sc.op(&format!("srv-rx 0 {} {}", b, hex(&resp)));
+        }
+    }
+    // its owner can still go on
+    sc.op(&format!("srv-rx 0 {} {}", a, hex(&req)));
+    let _ = cl;
+    sc.op("srv-dump 0");
+}
+
+fn table_full_ops(case: usize) -> Vec<String> {
+    fixed_ops(case, table_full_script)
+}
+
+// =============================================================================================
+// profile nc-window (C04, wire level): packets of the three replay-protected kinds at sequences
+// {s, s±1, s±255, s±256, s±257, s±512} pushed through ONE window in random order with repetitions
+// =============================================================================================
+
+fn script_window(rng: &mut Rng, _tier: Tier, f: &mut dyn FnMut(&str) -> String) {
+    let mut sc = Sc::new(f);
+    let proto = rng.pick(&[0u64, 7, u64::MAX]);
+    let key = hex(&k32(rng));
+    for _ in 0..3 {
+        let s: u64 = rng.pick(&[600u64, 1000, 1 << 32, 1 << 63, u64::MAX - 600, 256 * 7, 255 + 512]);
+        let deltas: [i64; 11] = [0, 1, -1, 255, -255, 256, -256, 257, -257, 512, -512];
+        let mut dgs: Vec<(String, u64, u8)> = vec![];
+        let n = rng.range(5, 9);
+        for i in 0..n {
+            let d = if i < 2 { [0i64, 256][i as usize] } else { rng.pick(&deltas) };
+            let seq = (s as i128 + d as i128) as u64;
+            let kind = if i == 0 { 4 } else if i == 1 { 5 } else { rng.pick(&[4u8, 5, 5, 6]) };
+            let term = match kind {
+                4 => "ka 0 0".to_string(),
+                5 => {
+                    let n = rng.below(4) as usize + 1;
+                    format!("pay {}", hex(&rng.payload(n)))
+                }
+                _ => "disc".to_string(),
+            };
+            let out = sc.op(&format!("nc-enc 1400 {} {} {} {}", proto, seq, key, term));
+            if let Some(h) = out.strip_prefix("ok ") {
+                dgs.push((h.to_string(), seq, kind));
+            }
+        }
+        if dgs.len() < 2 {
+            continue;
+        }
+        let mut list: Vec<String> = vec![];
+        let len = rng.range(6, 18);
+        for _ in 0..len {
+            list.push(rng.pick(&dgs).0);
+        }
+        if rng.chance(1, 2) {
+            // an entry taken over by a later sequence, rewritten by the replay of the older packet, then the later one again
+            let at = rng.below(list.len() as u64 + 1) as usize;
+            let pat = vec![dgs[0].0.clone(), dgs[1].0.clone(), dgs[0].0.clone(), dgs[1].0.clone()];
+            for (j, x) in pat.into_iter().enumerate() {
+                list.insert((at + j).min(list.len()), x);
+            }
+        }
+        sc.op(&format!("nc-stream {} {} {}", proto, key, list.join(",")));
+    }
+}
+
+/// C04 (wire level): one window, one datagram, at most one successful decode of a payload / disconnect packet
+fn oracle_window_once(ops: &[String], outs: &[String]) -> Option<OracleFail> {
+    for i in 0..ops.len().min(outs.len()) {
+        let t = toks(&ops[i]);
+        if t.len() != 4 || t[0] != "nc-stream" {
+            continue;
+        }
+        let o = toks(&outs[i]);
+        if o.is_empty() || o[0] == "panic" || o[0] == "dead" || o[0] == "bad-op" {
+            continue;
+        }
+        let dgs: Vec<&str> = t[3].split(',').collect();
+        let res: Vec<&str> = o[0].split(',').collect();
+        let mut accepted: HashSet<&str> = HashSet::new();
+        for (j, d) in dgs.iter().enumerate() {
+            let r = res.get(j).cloned().unwrap_or("");
+            if r.starts_with("ok:") && (r.ends_with(":pay") || r.ends_with(":disc")) {
+                if !accepted.insert(d) {
+                    return fail(i, "surfaced-twice:wire", format!("datagram #{} of the stream ({}) was decoded successfully a second time through the same replay window", j, r));
+                }
+            }
+        }
+    }
+    None
+}
+
 fn keep_setup(ops: &[String]) -> usize {
     ops.iter().position(|o| o == "note setup-done").map(|i| i + 1).unwrap_or(0)
 }
@@ -2375,7 +2745,7 @@ pub fn profiles() -> Vec<Profile> {
         },
         Profile {
             name: "nc-regress",
-            props: &["C07", "C17", "C05", "C10", "C18", "C16", "C19"],
+            props: &["C07", "C17", "C05", "C10", "C18", "C16", "C19", "C04"],
             cases: |_| REGRESS_CASES,
             new_world,
             script: |_, _, _| {},
@@ -2405,7 +2775,7 @@ pub fn profiles() -> Vec<Profile> {
         },
         Profile {
             name: "nc-session",
-            props: &["C04", "C07", "C17", "C18", "C13"],
+            props: &["C04", "C07", "C17", "C18", "C13", "C10"],
             cases: |t| if t == Tier::Thorough { 2500 } else { 250 },
             new_world,
             script: script_session,
@@ -2421,6 +2791,27 @@ pub fn profiles() -> Vec<Profile> {
             script: script_hostile,
             nontrivial: |t| any_op(t, "note hostile") && any_out(t, "connected "),
             keep: keep_setup,
+            fixed: None,
+        },
+        Profile {
+            name: "nc-table-full",
+            props: &["C05"],
+            cases: |_| 1,
+            new_world,
+            script: |_, _, _| {},
+            nontrivial: |_| true,
+            // nothing to minimise: the 2048 fillers are the point, and every re-run costs seconds
+            keep: |ops| ops.len(),
+            fixed: Some(table_full_ops),
+        },
+        Profile {
+            name: "nc-window",
+            props: &["C04"],
+            cases: |t| if t == Tier::Thorough { 2000 } else { 200 },
+            new_world,
+            script: script_window,
+            nontrivial: |t| any_op(t, "nc-stream"),
+            keep: |_| 0,
             fixed: None,
         },
         Profile {
@@ -2751,6 +3142,38 @@ fn oracle_table(ops: &[String], outs: &[String]) -> Option<OracleFail> {
                     let id = p_u64(o[1]).unwrap_or(0);
                     if !connected.entry(s.clone()).or_default().remove(&id) {
                         return fail(i, "disconnected-without-connected", format!("client {} reported disconnected without being connected", id));
+                    }
+                }
+            }
+            "srv-q" if t.len() == 3 => {
+                // lookups agree with the event stream
+                if let (Some(c), Some(id)) = (connected.get(&s), p_u64(t[2])) {
+                    let o = &outs[i];
+                    if o != "panic" && o != "dead" && o != "bad-op" {
+                        let listed: HashSet<u64> = field(o, "ids").map(|l| l.trim_matches(|ch| ch == '[' || ch == ']').split(',').filter_map(p_u64).collect()).unwrap_or_default();
+                        // `ids=[a,b]` is split at commas by `field`: re-read it from the raw text
+                        let listed: HashSet<u64> = match (o.find("ids=["), o.find("] n=")) {
+                            (Some(a), Some(b)) if a + 5 <= b => o[a + 5..b].split(',').filter_map(p_u64).collect(),
+                            _ => listed,
+                        };
+                        if listed != *c {
+                            return fail(i, "lookup-mismatch", format!("clients_id() = {:?} but the events say {:?} are connected", listed, c));
+                        }
+                        let conn = field(o, "conn") == Some("1");
+                        if conn != c.contains(&id) {
+                            return fail(i, "lookup-mismatch", format!("is_client_connected({}) = {} but the events say {}", id, conn, c.contains(&id)));
+                        }
+                        if (field(o, "addr") != Some("-")) != c.contains(&id) {
+                            return fail(i, "lookup-mismatch", format!("client_addr({}) = {:?} but the events say connected = {}", id, field(o, "addr"), c.contains(&id)));
+                        }
+                    }
+                }
+            }
+            "srv-pay" if t.len() == 4 => {
+                if let (Some(c), Some(id)) = (connected.get(&s), p_u64(t[2])) {
+                    let o = &outs[i];
+                    if (o == "err:ClientNotFound" && c.contains(&id)) || (o.starts_with("send ") && !c.contains(&id)) {
+                        return fail(i, "lookup-mismatch", format!("generate_payload_packet({}) answered `{}` but the events say connected = {}", id, trunc_s(o, 30), c.contains(&id)));
                     }
                 }
             }
@@ -3679,16 +4102,17 @@ pub fn oracles() -> Vec<Oracle> {
         Oracle { prop: "C13", name: "nc-datagram-size", engines: NC_ALL, check: oracle_size },
         Oracle { prop: "C19", name: "nc-no-amplification", engines: NC_ALL, check: oracle_amplification },
         Oracle { prop: "C10", name: "nc-connection-table", engines: &["nc-handshake", "nc-attacker", "nc-session", "nc-hostile", "nc-regress"], check: oracle_table },
-        Oracle { prop: "C05", name: "nc-connect-justified", engines: &["nc-handshake", "nc-attacker", "nc-session", "nc-hostile", "nc-regress"], check: oracle_connect_justified },
+        Oracle { prop: "C05", name: "nc-connect-justified", engines: &["nc-handshake", "nc-attacker", "nc-session", "nc-hostile", "nc-regress", "nc-table-full"], check: oracle_connect_justified },
         Oracle { prop: "C17", name: "nc-nonce-unique", engines: &["nc-handshake", "nc-session", "nc-hostile", "nc-regress"], check: oracle_nonce },
         Oracle { prop: "C17", name: "nc-tampered-rejected", engines: &["nc-wire", "nc-regress"], check: oracle_mutated_rejected },
         Oracle { prop: "C16", name: "nc-wire-roundtrip", engines: &["nc-wire"], check: oracle_roundtrip },
-        Oracle { prop: "C04", name: "nc-payloads-authentic-once", engines: &["nc-session", "nc-handshake", "nc-hostile", "nc-known"], check: oracle_payloads },
+        Oracle { prop: "C04", name: "nc-payloads-authentic-once", engines: &["nc-session", "nc-handshake", "nc-hostile", "nc-known", "nc-regress", "nc-failover"], check: oracle_payloads },
+        Oracle { prop: "C04", name: "nc-window-once", engines: &["nc-window"], check: oracle_window_once },
         Oracle { prop: "C18", name: "nc-handshake-completes", engines: &["nc-regress", "nc-attacker"], check: oracle_expect_connected },
         Oracle { prop: "C18", name: "nc-lossless-phase-connects", engines: &["nc-failover", "nc-regress"], check: oracle_expect_up },
         Oracle { prop: "C18", name: "nc-failover-patient", engines: &["nc-failover", "nc-handshake", "nc-regress", "nc-session", "nc-wire"], check: oracle_failover_patient },
         Oracle { prop: "C19", name: "nc-silent-to-invalid", engines: &["nc-handshake", "nc-attacker", "nc-hostile", "nc-session", "nc-regress", "nc-failover", "nc-known"], check: oracle_silent_to_invalid },
-        Oracle { prop: "C05", name: "nc-silent-to-invalid", engines: &["nc-handshake", "nc-attacker", "nc-regress"], check: oracle_silent_to_invalid },
+        Oracle { prop: "C05", name: "nc-silent-to-invalid", engines: &["nc-handshake", "nc-attacker", "nc-regress", "nc-table-full"], check: oracle_silent_to_invalid },
         Oracle { prop: "C18", name: "nc-timeouts-exact", engines: &["nc-handshake", "nc-session", "nc-hostile", "nc-regress"], check: oracle_timeouts },
     ]
 }
